@@ -419,3 +419,41 @@ Proof.
   destruct (insert_block_spec g fresh (a :: b :: r) [] cls g' Hnd' Hni H) as [A [B C]].
   split; [exact A|]. split; [exact B|]. exact C.
 Qed.
+
+(* ---------- totality of the value-table rewrite (property C02) ---------- *)
+(* with the same number of targets the rewrite is positional and cannot fail *)
+Lemma table_rewrite_total_same_arity tbl new_jt all_old :
+  length new_jt = length all_old ->
+  forall old_jt idx acc, (idx + length old_jt <= length all_old)%nat ->
+    table_rewrite tbl old_jt new_jt all_old idx acc <> None.
+Proof.
+  intros Hlen. induction old_jt as [|t r IH]; intros idx acc Hb; cbn [table_rewrite]; [discriminate|].
+  cbn [length] in Hb.
+  destruct (zmem t new_jt); [apply IH; lia|].
+  rewrite Hlen, Nat.eqb_refl.
+  destruct (nth_error new_jt idx) as [nt|] eqn:E.
+  - apply IH. lia.
+  - apply nth_error_None in E. lia.
+Qed.
+
+Theorem replace_jt_total b new_jt :
+  length new_jt = length (e_jt b) -> replace_jt b new_jt <> None.
+Proof.
+  intros Hlen. unfold replace_jt. destruct (e_kind b) as [c|a|c v tbl]; try discriminate.
+  pose proof (table_rewrite_total_same_arity tbl new_jt (e_jt b) Hlen (e_jt b) O []) as H.
+  destruct (table_rewrite tbl (e_jt b) new_jt (e_jt b) 0 []); [discriminate|].
+  exfalso. apply H; [cbn; lia|reflexivity].
+Qed.
+
+(* before the repair (commit cecde5d) the rewrite demanded exactly one new name:
+   re-targeting two successors at once was rejected *)
+Definition table_rewrite_old (tbl : list (Z * name)) (old_jt new_jt : list name) : bool :=
+  forallb (fun t => zmem t new_jt ||
+                    match dedupe (filter (fun x => negb (zmem x old_jt)) new_jt) with
+                    | [_] => true | _ => false end) old_jt.
+
+Example old_rewrite_rejected_two_targets :
+  table_rewrite_old [(0, 1); (1, 2)] [1; 2] [7; 8] = false /\
+  replace_jt (mkE [1; 2] [] (EBranch 11 5 [(0, 1); (1, 2)])) [7; 8]
+  = Some (mkE [7; 8] [] (EBranch 11 5 [(0, 7); (1, 8)])).
+Proof. vm_compute. split; reflexivity. Qed.
